@@ -21,6 +21,10 @@ CHECKS = {
             "(both inputs reconstructable, exact ops, empty self-diff), against an independent reference diff (MOVED iff the preceding sequence differs, rewrite units, "
             "UNCHANGED marking), and both operator-facing texts (formatter.diff, gen_pre_as_diff) are read back by independent parsers and compared with the diff entries.",
             "Trusted: R2 rule selection, vf/ref/diff.py, the two signed-text readers. Vendor-specific diff logics out of scope (aruba excluded).", "4/C03"),
+    "C04": ("round-trip law monitor on the real formatters (no reference model): exhaustive small tree shapes + random trees, per vendor, with vendor-significant row classes",
+            "For all 14 registered vendors, trees of the vendor's well-formed domain are rendered with join, parsed back with parse_to_tree and the vendor's split, compared as ordered "
+            "trees, re-rendered and compared as text. Exhaustive over all ordered tree shapes with <=4/5 nodes x 3 row forms, then random trees to depth 5.",
+            "Pure law; domain restrictions (delimiters, comment markers, block-end keywords dropped on purpose) are listed in the evidence rule. One known finding (Cisco address-family).", "4/C04"),
     "C05": ("reference-model monitor (independent offside parser) over exhaustive small scope + random texts",
             "Every text in an exhaustively enumerated small scope (all indentation vectors up to 6/7 lines over columns 0..6, "
             "with comment/blank/section-break insertions) and seeded random longer texts is parsed by the real parse_to_tree "
